@@ -377,3 +377,35 @@ func checkOptionReadSites(r *Run, prog *Program, a *Anchors, pfx string) {
 	}
 	r.Check(pfx+".option-read-sites", "census", "", n >= 5, fmt.Sprintf("info: %d reads of option fields", n))
 }
+
+// checkMatcherOperatorBlind: the negated form of an operator is the negation, made by the dispatcher, of what the one
+// matcher of the pair answers. A matcher (or a function only matchers run) that reads the expression's Operator can answer
+// differently for the two members of a pair, and the two forms are no longer complements.
+func checkMatcherOperatorBlind(r *Run, prog *Program, a *Anchors, pfx string) {
+	part := map[*ssa.Function]bool{}
+	for _, m := range a.Matchers {
+		part[m] = true
+	}
+	for i := 0; i < 3; i++ {
+		for _, f := range prog.ModuleFuncs() {
+			if !part[f] && fnPkg(f) == prog.Bexpr.Types && bexprHelper(prog, a, f) && prog.contextOnly(f, func(c *ssa.Function) bool { return part[c] }) {
+				part[f] = true
+			}
+		}
+	}
+	n := 0
+	for _, fa := range prog.FieldAccesses(prog.ModuleFuncs()) {
+		fn := fa.Fn
+		for fn.Parent() != nil {
+			fn = fn.Parent()
+		}
+		if !part[fn] {
+			continue
+		}
+		n++
+		if fa.Struct.Obj().Name() == "MatchExpression" && fa.Struct.Obj().Pkg().Path() == grammarPath && fa.Field == "Operator" && fa.Kind != "write" {
+			r.Check(pfx+".matcher-operator-blind", fn.Name()+":reads-Operator", prog.pos(fa.Instr.Pos()), false, "matcher "+fn.Name()+" reads the expression's Operator: what it answers may differ between an operator and its negated form, which the dispatcher negates again")
+		}
+	}
+	r.Check(pfx+".matcher-operator-blind", "census", "", len(a.Matchers) > 0 && n > 0, fmt.Sprintf("info: %d field accesses in %d matcher functions examined", n, len(part)))
+}
